@@ -206,6 +206,7 @@ type world struct {
 	unit         int64 // bytes per record (bytes sizer)
 	base         int64 // bytes of a request without records
 	sizeDeadline time.Time
+	maxQueued    int // deepest backlog seen at a reconcile
 }
 
 func (w *world) ping() {
@@ -226,14 +227,15 @@ func (w *world) push(_ context.Context, v any) error {
 	return <-h.ch
 }
 
-func (w *world) sizeOf(n int) int64 {
+func (w *world) sizeOf(rid int64, n int) int64 {
 	switch w.cfg.Sizer {
 	case "requests":
 		return 1
 	case "items":
 		return int64(n)
 	}
-	return int64(sig.Size(payload(1, n)))
+	// the request id is part of the payload: its varint grows from rid 128 on
+	return int64(sig.Size(payload(rid, n)))
 }
 
 func (w *world) capUnits() int64 {
@@ -298,7 +300,7 @@ func newWorld(cfg Cfg) (*world, *vt.Finding) {
 
 // offer starts an Offer in its own goroutine.
 func (w *world) offer(n int, cancelable bool) *producer {
-	p := &producer{rid: w.next, n: n, size: w.sizeOf(n), done: make(chan struct{}), step: w.step}
+	p := &producer{rid: w.next, n: n, size: w.sizeOf(w.next, n), done: make(chan struct{}), step: w.step}
 	w.next++
 	p.ctx, p.cancel = context.Background(), func() {}
 	if cancelable {
@@ -496,6 +498,9 @@ func (w *world) reconcile(c *vt.C) *vt.Finding {
 	if exact {
 		queued := len(w.byState("queued"))
 		inflight := len(w.byState("inflight"))
+		if queued > w.maxQueued {
+			w.maxQueued = queued
+		}
 		want := inflight
 		if free := w.cfg.Consumers - inflight; free > 0 && queued > 0 {
 			// wait for the idle consumers to pick up work
@@ -1052,6 +1057,12 @@ func runInner(s *Script) (bool, *vt.Finding) {
 		}
 	}
 	c.Class("signal:" + s.Cfg.signal())
+	if w.maxQueued >= 9 {
+		c.Class("backlog>=9-pending")
+		if s.Cfg.Consumers == 1 {
+			c.Class("backlog>=9-pending&single-consumer")
+		}
+	}
 	c.Class("sizer:"+s.Cfg.Sizer, fmt.Sprintf("persistent:%v", s.Cfg.Persistent), fmt.Sprintf("block:%v", s.Cfg.Block), fmt.Sprintf("wfr:%v", s.Cfg.WFR))
 	return nt, nil
 }
@@ -1070,10 +1081,30 @@ func gen(t *rapid.T) Script {
 	s.Cfg.Block = rapid.Bool().Draw(t, "block")
 	maxN := s.Cfg.Cap + 2
 	n := rapid.IntRange(1, 40).Draw(t, "nops")
+	// one script in five: a large capacity and many small offers, so that the backlog
+	// grows to dozens of pending requests while consumers keep taking from its head
+	// (growth of whatever holds the backlog happens with the head in the middle)
+	deep := rapid.IntRange(0, 4).Draw(t, "deep") == 0
+	if deep {
+		s.Cfg.Cap = rapid.IntRange(9, 70).Draw(t, "deepcap")
+		maxN = 3
+		n = rapid.IntRange(20, 140).Draw(t, "deepnops")
+	}
 	for i := 0; i < n; i++ {
-		switch k := rapid.IntRange(0, 11).Draw(t, "op"); {
+		k := rapid.IntRange(0, 11).Draw(t, "op")
+		if deep && k >= 10 && rapid.Bool().Draw(t, "deepburst") {
+			// a run of offers, then a few completions
+			s.Ops = append(s.Ops, Op{Kind: "burst", Offers: rapid.SliceOfN(rapid.IntRange(0, maxN), 4, 14).Draw(t, "offers"),
+				Completes: rapid.IntRange(0, 3).Draw(t, "completes")})
+			continue
+		}
+		switch {
 		case k <= 5:
-			s.Ops = append(s.Ops, Op{Kind: "offer", N: rapid.IntRange(0, maxN).Draw(t, "n"), Cancelable: rapid.Bool().Draw(t, "cancelable")})
+			nn := rapid.IntRange(0, maxN).Draw(t, "n")
+			if deep && rapid.IntRange(0, 19).Draw(t, "oversize") == 0 {
+				nn = s.Cfg.Cap + 1
+			}
+			s.Ops = append(s.Ops, Op{Kind: "offer", N: nn, Cancelable: rapid.Bool().Draw(t, "cancelable")})
 		case k <= 8:
 			s.Ops = append(s.Ops, Op{Kind: "complete", Pick: rapid.IntRange(0, 2).Draw(t, "pick"), Fail: rapid.IntRange(0, 3).Draw(t, "fail") == 0})
 		case k <= 9:
